@@ -13,11 +13,18 @@ payload columns, a second geometry column and the active geometry not first).
 
 Every result is read back as row positions (and the labels / payload / element values /
 result type are checked to have travelled unchanged), then compared
-  * with Model/Cx.v evaluated by the Coq kernel on the exported buffers, the exported
-    `_keys` permutation and page size, and the same keys (cx_case), as well as the box
-    `_get_bounds` computed (bounds_case);
-  * between containers, and with the no-index run (boxes of positive width and height);
+  * with Model/Cx.v evaluated by the Coq kernel on the buffers exported through the Arrow
+    protocol, the index state this check created itself (its own build_sindex / .sindex
+    calls; identity permutation -- by C04_index_config_irrelevant the answer does not depend
+    on the permutation or the page size) and the same keys (cx_case);
+  * between containers and index configurations, and with the no-index run (boxes of
+    positive width and height);
   * with np.nonzero(arr.intersects_bounds(box)) called directly.
+Only public API is used to decide a violation.  Private names (`_sindex`, `_get_bounds`) are
+optional extras: when missing or shaped differently they are skipped and counted
+(`internal-unavailable:*`); a disagreement of the private `_get_bounds` with the model while
+every public comparison of the same array agrees is counted
+(`internal-differs-public-agrees:*`), not reported.
 """
 import math
 
@@ -34,8 +41,13 @@ TRUSTED = ['pandas .iloc[positions] / boolean-mask selection return the rows at 
            'pandas on every run: labels, payload columns, element values, result type)',
            'Model/Intersect.v (C01), Model/Rtree.v (C03), Model/Bounds.v (C13) as tied to the code by '
            'their own correspondence checks and again here through cx_case',
+           'the model runs with the identity permutation and the page size this check passed to '
+           'build_sindex: by C04_index_config_irrelevant (proved) the model\'s answer is the same for '
+           'every permutation and page size, so the index\'s private key array is not read',
+           'the index state of an object is the one this check created itself through the public API '
+           '(build_sindex / .sindex; none after slicing, taking or re-wrapping)',
            'pyarrow slice / take produce well-formed buffers holding the sliced / taken elements (not '
-           'modelled operationally; the child arrays are exported as they are)',
+           'modelled operationally; the child arrays are exported as they are, through __arrow_array__)',
            'float64 comparisons of exactly representable half-grid values = integer comparisons (x2)']
 
 PAGE_SIZES = ['1', '2', '3', 'n', '512']
@@ -78,8 +90,6 @@ class Family:
             psr = self._mk_series(base.copy()).build_sindex(page_size=ps, p=p)
             pf = mk_frame(base.copy(), lab0, oth0, pay0).build_sindex(page_size=ps, p=p)
             self.parents = (pa, psr, pf)
-            self.parent_built = (pa._sindex is not None and psr.array._sindex is not None
-                                 and pf['geom'].array._sindex is not None)
             idx = self._child_positions(n0)
             self.labels = [lab0[i] for i in idx]
             self.n = len(idx)
@@ -122,11 +132,11 @@ class Family:
             return obj
         if container == 'series':
             return obj.array
-        return obj[obj._geometry].array
+        return obj.geometry.array
 
     def meta(self):
         return {'kind': self.kind, 'subtype': self.subtype, 'elements': self.elements,
-                'child': self.child}
+                'child': self.child, 'fam_id': getattr(self, 'fam_id', 0)}
 
 
 def read_result(fam, container, src_obj, res):
@@ -142,19 +152,47 @@ def page_size_of(tag, n):
 
 
 # ----------------------------------------------------------------------------
+def sidx(obj, container):
+    """the public .sindex property (GeoDataFrame: of its active geometry)"""
+    return (obj.geometry if container == 'frame' else obj).sindex
+
+
+def history_page_size(cfg):
+    """page size of the index this check built on the object (None = none built)"""
+    if cfg is None:
+        return None
+    if cfg[0] == 'prop':
+        return 512
+    if cfg[0] == 'twice':
+        return cfg[1]
+    return cfg[0]
+
+
 def process(rep, fam, keys, configs, containers_for, sink, quiet=False):
     """run every (config, container, key); python-side comparisons; Coq cases into sink.
-    configs: list of None | (page_size, p) | ('twice', ps1, p1, ps2, p2)
-    containers_for(config) -> containers to run for it"""
+    configs: list of None | (page_size, p) | ('prop',) | ('twice', ps1, p1, ps2, p2)
+    containers_for(config) -> containers to run for it.
+
+    Everything that decides a violation is observed through the public API (.cx results,
+    build_sindex, .sindex identity, total_bounds, the Arrow protocol).  The index state fed
+    to the model is the one this check created itself (its own build_sindex calls), with the
+    identity permutation (C04_index_config_irrelevant).  Private names are looked at only as
+    optional extras, counted and never reported on their own."""
     kind = fam.kind
     meta = fam.meta()
     pristine = fam.fresh('array')
     if U.pylist(pristine) != fam.src_keys:
         raise AssertionError('family elements unstable')
-    by_state = {}        # state key -> (state, results per key)
-    noindex = None
-    boxes = None
+    garr = U.export_garr(kind, pristine)
+    if not U.modelled(kind, garr):
+        rep.violation('not-modelled:odd-offset',
+                      'an element part does not start on an (x, y) pair boundary of the values '
+                      'buffer (hypothesis g_modelled of the C04 theorems)', meta)
+    extent = tuple(float(v) for v in pristine.total_bounds)
+    boxes = [U.py_box(k, extent) for k, _, _ in keys]
+    by_state = {}        # history page size (None = no index) -> (results per key, container, cfg)
     for cfg in configs:
+        hps = history_page_size(cfg)
         for container in containers_for(cfg):
             obj = fam.fresh(container)
             ga = fam.geom_array(obj, container)
@@ -162,38 +200,37 @@ def process(rep, fam, keys, configs, containers_for, sink, quiet=False):
                 rep.violation(f'{container}:construction', 'container does not hold the elements given',
                               {**meta, 'container': container})
                 continue
-            if fam.child is not None and ga._sindex is not None:
-                rep.violation('derived-keeps-index',
-                              'an array obtained by slicing / taking kept the parent\'s spatial index',
-                              {**meta, 'container': container})
+            internal0 = U.internal_index(ga)
+            if internal0[0] == 'unavailable':
+                rep.count('internal-unavailable:_sindex')
+            elif fam.child is not None and internal0[0] == 'built':
+                rep.count('internal:derived-object-has-index')
             if cfg is not None:
                 if cfg[0] == 'prop':
-                    # the lazy .sindex property (default p and page_size)
-                    t = (obj.geometry if container == 'frame' else obj).sindex
-                    ga = fam.geom_array(obj, container)
-                    if t is None or ga._sindex is not t or t._page_size != 512:
+                    # the lazy .sindex property builds a default index once and caches it
+                    t = sidx(obj, container)
+                    if t is None or sidx(obj, container) is not t:
                         rep.violation('sindex-property',
-                                      'the .sindex property did not build and cache a default index',
+                                      'the .sindex property did not build and cache an index',
                                       {**meta, 'container': container})
                         continue
                 elif cfg[0] == 'twice':
                     obj.build_sindex(page_size=cfg[1], p=cfg[2])
+                    t1 = sidx(obj, container)
                     obj.build_sindex(page_size=cfg[3], p=cfg[4])
-                    ga = fam.geom_array(obj, container)
-                    if ga._sindex is None or ga._sindex._page_size != max(1, cfg[1]):
+                    if sidx(obj, container) is not t1:
                         rep.violation('second-build-replaced-index',
                                       'build_sindex on an already indexed object did not keep the first index',
                                       {**meta, 'container': container, 'config': list(cfg)})
                 else:
                     r = obj.build_sindex(page_size=cfg[0], p=cfg[1])
-                    ga = fam.geom_array(obj, container)
-                    if r is not obj or ga._sindex is None:
-                        rep.violation('build-sindex-lost',
-                                      'build_sindex did not leave an index on the active geometry array',
+                    if r is not obj:
+                        rep.violation('build-sindex-returns', 'build_sindex did not return the object',
                                       {**meta, 'container': container, 'config': list(cfg)})
                         continue
-            state = U.index_state(ga)
-            skey = None if state is None else (tuple(state[0]), state[1])
+                internal1 = U.internal_index(fam.geom_array(obj, container))
+                if internal1[0] == 'none':
+                    rep.count('internal:no-index-after-build')
             results = []
             for pykey, mkey, tag in keys:
                 out = U.run_cx(obj, pykey)
@@ -205,63 +242,50 @@ def process(rep, fam, keys, configs, containers_for, sink, quiet=False):
                     except U.Bad as b:
                         rep.violation(f'{container}:{b.sig}', f'{container}.cx: {b.what}', rp)
                         results.append(('bad',))
-                    if len(obj) == 0 and container != 'array' and out[1] is not obj:
-                        rep.count('empty-parent-not-same-object')
                 elif out[0] == 'ValueError':
                     results.append(('ValueError',))
                 else:
                     rep.violation(f'raised:{out[1]}', f'{container}.cx raised {out[1]}: {out[2]}', rp)
                     results.append(('raised', out[1]))
-            rep.count(f'runs:{container}:' + ('noindex' if state is None else 'index'), len(keys))
+            rep.count(f'runs:{container}:' + ('noindex' if hps is None else 'index'), len(keys))
             if container == 'array':
-                # the box _get_bounds computes, for the model and for the classification
-                bl = []
-                for pykey, mkey, tag in keys:
+                # OPTIONAL: the box the private _get_bounds computes, against the model
+                gb = getattr(obj.cx, '_get_bounds', None)
+                bl, ok = [], callable(gb)
+                if ok:
                     try:
-                        bl.append(tuple(float(v) for v in obj.cx._get_bounds(pykey)))
-                    except ValueError:
-                        bl.append(None)
-                sink['bcases'].append((U.export_garr(kind, ga), U.model_state(state),
-                                       [mk for _, mk, _ in keys]))
-                sink['bresults'].append([U.model_bounds(b) for b in bl])
-                sink['bmetas'].append({**meta, 'config': None if cfg is None else list(cfg),
-                                       'keys': [U.key_json(k) for k, _, _ in keys]})
-                if state is None and boxes is None:
-                    boxes = bl
-                if state is not None and not quiet:
-                    t = ga._sindex
-                    for b in bl:
-                        if b is not None and all(math.isfinite(v) for v in b):
-                            cv, ov = t.covers_overlaps((b[0], b[2], b[1], b[3]))
-                            if len(cv):
-                                rep.count('covered-shortcut-taken')
-                            if len(ov):
-                                rep.count('exact-test-on-overlaps')
-                            if len(cv) and len(ov):
-                                rep.count('covered+overlaps-mixed')
+                        for pykey, mkey, tag in keys:
+                            try:
+                                v = gb(pykey)
+                                bl.append(tuple(float(x) for x in v))
+                                ok = ok and len(bl[-1]) == 4
+                            except ValueError:
+                                bl.append(None)
+                    except Exception:  # noqa: any other shape of the internal
+                        ok = False
+                if ok:
+                    sink['bcases'].append((garr, U.model_state(fam.n, hps), [mk for _, mk, _ in keys]))
+                    sink['bresults'].append([U.model_bounds(b) for b in bl])
+                    sink['bmetas'].append({**meta, 'config': None if cfg is None else list(cfg),
+                                           'keys': [U.key_json(k) for k, _, _ in keys]})
+                else:
+                    rep.count('internal-unavailable:_get_bounds')
+            skey = None if hps is None else max(1, hps)
             if skey not in by_state:
-                garr = U.export_garr(kind, ga)
-                if not U.modelled(kind, garr):
-                    rep.violation('not-modelled:odd-offset',
-                                  'an element part does not start on an (x, y) pair boundary of the '
-                                  'values buffer (hypothesis g_modelled of the C04 theorems)',
-                                  {**meta, 'container': container})
-                by_state[skey] = (state, results, container, cfg, garr)
+                by_state[skey] = (results, container, cfg)
             else:
-                _, first, c0, cfg0, _ = by_state[skey]
+                first, c0, cfg0 = by_state[skey]
                 for (pykey, _, tag), a, b in zip(keys, first, results):
                     if a != b and 'bad' not in (a[0], b[0]):
                         rep.violation('container-differs',
-                                      f'{c0} and {container} select different rows for the same key and index state',
+                                      f'{c0} ({cfg0}) and {container} ({cfg}) select different rows for the '
+                                      'same key and an index of the same page size',
                                       {**meta, 'containers': [c0, container], 'key': U.key_json(pykey),
                                        'config': None if cfg is None else list(cfg),
                                        'results': [list(a), list(b)]})
                         break
-            if state is None and noindex is None:
-                noindex = results
+    noindex = by_state.get(None, (None,))[0]
     # --- python-side comparisons ------------------------------------------------
-    if boxes is None:
-        boxes = [None] * len(keys)
     positive = [b is not None and all(math.isfinite(v) for v in b) and b[0] < b[1] and b[2] < b[3]
                 for b in boxes]
     for (pykey, _, tag), b, pos in zip(keys, boxes, positive):
@@ -270,13 +294,22 @@ def process(rep, fam, keys, configs, containers_for, sink, quiet=False):
         rep.count('pattern:' + tag)
     # direct: exactly the rows intersects_bounds reports (positive boxes, every state)
     direct = []
+    probe = None if quiet else fam.fresh('array').build_sindex()
     for b, pos in zip(boxes, positive):
         if pos:
             m = pristine.intersects_bounds((b[0], b[2], b[1], b[3]))
             direct.append([int(i) for i in np.nonzero(m)[0]])
+            if probe is not None:
+                cv, ov = probe.sindex.covers_overlaps((b[0], b[2], b[1], b[3]))
+                if len(cv):
+                    rep.count('covered-shortcut-taken')
+                if len(ov):
+                    rep.count('exact-test-on-overlaps')
+                if len(cv) and len(ov):
+                    rep.count('covered+overlaps-mixed')
         else:
             direct.append(None)
-    for skey, (state, results, container, cfg, _) in by_state.items():
+    for skey, (results, container, cfg) in by_state.items():
         for (pykey, _, tag), r, d, ni in zip(keys, results, direct, noindex or [None] * len(keys)):
             rep.evaluations += 1
             if d is None or r[0] != 'pos':
@@ -285,7 +318,7 @@ def process(rep, fam, keys, configs, containers_for, sink, quiet=False):
                 rep.nontrivial((kind, repr(fam.src_keys), repr(pykey)))
             rp = {**meta, 'container': container, 'config': None if cfg is None else list(cfg),
                   'key': U.key_json(pykey)}
-            if state is not None and ni is not None and ni[0] == 'pos' and r[1] != ni[1]:
+            if skey is not None and ni is not None and ni[0] == 'pos' and r[1] != ni[1]:
                 rep.violation('index-relevant',
                               '.cx selects different rows with and without a spatial index '
                               '(box of positive width and height)',
@@ -295,10 +328,10 @@ def process(rep, fam, keys, configs, containers_for, sink, quiet=False):
                               '.cx does not select exactly the rows whose intersects_bounds is True',
                               {**rp, 'selected': r[1], 'intersecting': d})
     # --- Coq cases ----------------------------------------------------------------
-    for skey, (state, results, container, cfg, garr) in by_state.items():
+    for skey, (results, container, cfg) in by_state.items():
         if any(r[0] == 'bad' for r in results):
             continue
-        sink['cases'].append((garr, U.model_state(state), [mk for _, mk, _ in keys]))
+        sink['cases'].append((garr, U.model_state(fam.n, skey), [mk for _, mk, _ in keys]))
         sink['results'].append([U.model_result(r) for r in results])
         sink['metas'].append({**meta, 'container': container, 'config': None if cfg is None else list(cfg),
                               'keys': [U.key_json(k) for k, _, _ in keys],
@@ -324,10 +357,16 @@ def flush(rep, sink):
                       '.cx selects other rows than the proven model (Model/Cx.v) on the same buffers, '
                       'index permutation and keys',
                       {**m, 'model': model})
+    # OPTIONAL extra: the private _get_bounds against the model.  A disagreement there while
+    # every public comparison of the same array agrees is counted, not reported.
+    public_bad = {v['replay'].get('fam_id') for v in rep.violations}
     bad = C.coq_mismatches(U.IMPORTS, 'bounds_case', U.CASE_TY, U.BRES_TY, sink['bcases'],
                            sink['bresults'], shard=120)
     for i in bad[:10]:
         m = dict(sink['bmetas'][i])
+        if m.get('fam_id') not in public_bad:
+            rep.count('internal-differs-public-agrees:_get_bounds')
+            continue
         garr, st, mkeys = sink['bcases'][i]
         singles = [(garr, st, [mk]) for mk in mkeys]
         sres = [[r] for r in sink['bresults'][i]]
@@ -337,8 +376,11 @@ def flush(rep, sink):
         m['key'] = m['keys'][j]
         del m['keys']
         rep.violation(f'get-bounds-differs-from-model:{m["kind"]}',
-                      '_get_bounds computes another box than the model (defaults / swap / step)',
+                      '_get_bounds computes another box than the model (defaults / swap / step), and '
+                      'the .cx results of the same array are wrong too',
                       {**m, 'impl_x0_x1_y0_y1': sink['bresults'][i][j], 'model': model})
+    if len(bad) > 10:
+        rep.count('internal-differs:_get_bounds(more)', len(bad) - 10)
     for k in sink:
         sink[k] = []
 
@@ -430,11 +472,10 @@ def run(rep):
             rep.count('skipped:' + str(e)[:40])
             continue
         nfam += 1
+        fam.fam_id = nfam
         rep.count('kind:' + kind)
         if child is not None:
             rep.count('child:' + child[0])
-            if not fam.parent_built:
-                rep.violation('build-sindex-lost', 'build_sindex left no index on a parent', fam.meta())
         if any(e is None for e in fam.src_keys):
             rep.count('has-missing')
         if len(set(fam.src_keys)) < len(fam.src_keys):
